@@ -47,7 +47,7 @@ def case_window(ctx, mr, case):
         for op in ops:
             try:
                 if op[0] == 'r':
-                    res.append('h:' + w.read(op[1]).hex())
+                    res.append('h:' + (w.readall() if len(op) > 2 and op[2] == 'all' else w.read(op[1])).hex())
                 elif op[0] == 's':
                     res.append('i:%x' % w.seek(op[1], op[2]))
                 elif op[0] == 'w':
@@ -369,7 +369,7 @@ def run_cases(ctx, cases):
 
 def run(ctx):
     proof = prove('C09', ['fileio', 'common', 'dpfs', 'ivfcpd'], ['C09_bridge', 'C09_props'],
-                  static_deps=['Proofs/WindowProofs.v', 'Base/ListExt.v', 'Base/PySlice.v', 'Env/PyFile.v'])
+                  static_deps=['Proofs/WindowProofs.v', 'Proofs/LawfulChunkProofs.v', 'Base/ListExt.v', 'Base/PySlice.v', 'Env/PyFile.v'])
     run_cases(ctx, gen_cases(ctx, ctx.rng))
     extra = {}
     if not ctx.quick():
